@@ -33,6 +33,11 @@ CHECKS = {
    text="Complete products over source shape x dtype x nodata setting x source chunking x destination chunking x 17 destination placements (aligned, whole/sub-pixel shifts, scales 2, 1/2, 1.5, mirrored, partly outside on each side, disjoint, larger) x time axis: the graph built by xr_reproject for dask input is executed task by task by the harness and must equal, pixel for pixel (NaN-aware), both the in-memory result and a brute-force nearest-neighbour reference computed in exact rational arithmetic, which also fixes the fill value of every unreachable pixel. Cross-CRS (3857<->4326): clearly reachable / clearly unreachable pixel classes from a fresh pyproj transformer must be non-fill / fill in both paths; disjoint => all fill, no exception. For three graphs every task order within 1 (quick) / 2 (thorough) deviations of dask's static order must give the identical array.",
    note="Dyadic alphabet; destination pixel centres never map onto a source pixel edge (asserted by the reference), so tie-breaking cannot differ. GDAL is trusted for the in-memory path. Tasks run one at a time (task granularity); threads inside GDAL are not schedulable.",
    design="4/C13", thorough=True),
+ "C05": dict(level="model_checking", engine="E1+E3b",
+   technique="bounded-exhaustive configuration enumeration of the real writer judged by two independent TIFF decoders + exhaustive dask task-order exploration within a deviation bound",
+   text="Complete products per slice (9 image shapes incl. 1x1, single row/column, narrower than a tile x 7 band layouts; 7 dtypes x 4 compressions x predictor on/off x 3 nodata settings; 7 blocksize lists x 4 source chunkings x 3 layouts; spill size x writes-per-chunk x parts directory) are written through save_cog_with_dask and every file is decoded with rasterio/GDAL and tifffile: original pixels, dtype, band count, transform, CRS, nodata; padding only right/bottom with the fill value up to the multiple of 2^levels that an independently written layout rule prescribes; every IFD tiled with tile sizes multiple of 16, each overview exactly half; tile byte ranges pairwise disjoint, gap-free from the first tile to EOF; all overview tiles before full-resolution tiles. For 2 (thorough 3) small graphs every task order within 1 (thorough 2) deviations from dask's static order is executed by the harness and each resulting file passes the same oracle with identical size.",
+   note="rasterio/GDAL and tifffile trusted as decoders. Ambiguous band-first shapes (documented shape-based detection) excluded. Overview pixel content not compared. Task granularity only.",
+   design="4/C05", thorough=True),
 }
 NOT_YET = "check not built yet in this session (design in DESIGN.md section 4); no claim made"
 
